@@ -92,6 +92,11 @@ func runC10(c *core.Ctx) {
 	c.Rule("R5", "synchronous branch does not retain the caller's slice", 1)
 	c.Rule("R6", "the sender's scratch lists (batch, recycle list) do not share a backing array", 1)
 	runScratchDisjoint(c, e, "R6")
+	// the bytes captured are the bytes sent: below the queue the batch is read, never rewritten (C17-R7), and a
+	// pooled object is handed to one owner at a time (C19-R3)
+	c.Rule("R7", "a dequeued batch is only read by the transport wrappers; pooled objects come from sync.Pool (shared with C17-R7, C19-R3)", 2)
+	importObligations(c, runC17, "R7", func(o *core.Obligation) bool { return o.Rule == "R7" })
+	importObligations(c, runC19, "R7", func(o *core.Obligation) bool { return o.Rule == "R3" })
 
 	// ---- R1
 	for _, E := range r.Enqueuers {
